@@ -1,1 +1,16 @@
-fn main(){ let src = std::fs::read_to_string(std::env::args().nth(1).unwrap()).unwrap(); let p = rooc::RoocParser::new(src.clone()); match p.type_check(&vec![], &indexmap::IndexMap::new()) { Ok(_)=>println!("TC OK"), Err(e)=>println!("TC ERR {}", e) } }
+// probe: type check, then transform without the type check
+fn main() {
+    let src = std::fs::read_to_string(std::env::args().nth(1).unwrap()).unwrap();
+    let p = rooc::RoocParser::new(src.clone());
+    match p.type_check(&vec![], &indexmap::IndexMap::new()) {
+        Ok(_) => println!("TC OK"),
+        Err(e) => println!("TC ERR {}", e),
+    }
+    match p.parse() {
+        Ok(pm) => match pm.transform(vec![], &indexmap::IndexMap::new()) {
+            Ok(m) => println!("TRANSFORM OK\n{}", m),
+            Err(e) => println!("TRANSFORM ERR {}", e),
+        },
+        Err(e) => println!("PARSE ERR {:?}", e),
+    }
+}
